@@ -96,7 +96,7 @@ func parsePipeExpr(expr string) pipeExpr {
 
 	if len(pipes) == 0 {
 		// Check if it's a function call (including no-arg functions like "fn()")
-		if matches := filterRe.FindStringSubmatch(trimmed); matches != nil && matches[1] != "" {
+		if matches := matchCall(trimmed); matches != nil && matches[1] != "" {
 			return pipeExpr{
 				initial: "",
 				segments: []pipeSegment{{
@@ -176,7 +176,7 @@ func classifySegment(part string) pipeSegment {
 	}
 
 	// Try to match as function call
-	if matches := filterRe.FindStringSubmatch(part); matches != nil {
+	if matches := matchCall(part); matches != nil {
 		name := matches[1]
 		if helpers.IsIdentifier(name) {
 			args := []string{}
@@ -197,6 +197,18 @@ func classifySegment(part string) pipeSegment {
 		typ:  segmentExpr,
 		expr: part,
 	}
+}
+
+// matchCall matches text against filterRe. The regular expression alone also
+// accepts calls joined by an operator written without blanks, add(1,2)+add(3,4),
+// as one call with the arguments "1,2)+add(3,4": where there are parentheses,
+// the one that closes the call must be the last character.
+func matchCall(text string) []string {
+	matches := filterRe.FindStringSubmatch(text)
+	if matches != nil && strings.Contains(text, "(") && !isSingleCall(maskQuoted(text)) {
+		return nil
+	}
+	return matches
 }
 
 // isSingleCall reports whether the (masked) text is one call, name(...), whose
